@@ -112,4 +112,98 @@ theorem reset_on_empty_input_restarts (cfg : Cfg) (e : Eng) (hp : e.vm.st.execPa
   rw [this]
   simp [e1, St.setCode]
 
+/-! ### the pre-VM detour of an engine with a first function -/
+
+/-- the deferred calls of `runFirst` end by putting the page index back: whenever they succeed, it is `idx0` -/
+theorem firstFinish_idx (idx0 : Nat) (e e' : Eng) (h : firstFinish idx0 e = (.ok (), e')) :
+    e'.vm.st.sizeIdx = idx0 := by
+  unfold firstFinish at h
+  simp only [EM.bind_apply, EM.vm_apply] at h
+  rcases h1 : resetFlagM Facts.dirtyFlag e.vm with ⟨r1, s1⟩
+  rw [h1] at h
+  cases r1 with
+  | err k m => simp at h
+  | panic p => simp at h
+  | ok u1 =>
+    simp only at h
+    rcases h2 : resetFlagM Facts.terminateFlag s1 with ⟨r2, s2⟩
+    rw [h2] at h
+    cases r2 with
+    | err k m => simp at h
+    | panic p => simp at h
+    | ok u2 =>
+      simp only [EM.get_apply] at h
+      cases hu : s2.st.up with
+      | ok p =>
+        simp only [hu, EM.bind_apply, EM.modify_apply, EM.pure_apply, Prod.mk.injEq] at h
+        rw [← h.2]
+      | err k =>
+        simp only [hu, EM.bind_apply, EM.modify_apply, EM.pure_apply, Prod.mk.injEq] at h
+        rw [← h.2]
+      | panic k =>
+        simp only [hu, EM.bind_apply, EM.modify_apply, EM.pure_apply, Prod.mk.injEq] at h
+        rw [← h.2]
+
+/-- **The pre-VM detour keeps the page index** (fix 80b4540): whenever the first function's run comes back without an
+error, the session is on the page it was on - whatever the first function returned, for every state. Before the fix the
+Down/Up around the first function left the index at 0 on every request of a per-request engine. -/
+theorem bind_ok_inv {α β} (x : EM α) (f : α → EM β) (e e' : Eng) (b : β) (h : (x >>= f) e = (.ok b, e')) :
+    ∃ a e1, x e = (.ok a, e1) ∧ f a e1 = (.ok b, e') := by
+  simp only [EM.bind_apply] at h
+  rcases hx : x e with ⟨r, e1⟩
+  rw [hx] at h
+  cases r with
+  | ok a => exact ⟨a, e1, rfl, h⟩
+  | err k m => simp at h
+  | panic p => simp at h
+
+theorem first_function_keeps_page_index (env : Env) (cfg : Cfg)
+    (fn : Nat → Option Bytes → Option Bytes → ExtResult) (e e' : Eng) (b : Bool)
+    (h : runFirstBody env cfg fn e = (.ok b, e')) : e'.vm.st.sizeIdx = e.vm.st.sizeIdx := by
+  unfold runFirstBody at h
+  obtain ⟨e0, e1, h0, h⟩ := bind_ok_inv _ _ _ _ _ h
+  simp only [EM.get_apply, Prod.mk.injEq, VRes.ok.injEq] at h0
+  obtain ⟨rfl, rfl⟩ := h0
+  dsimp only at h
+  cases hd : e.vm.st.down [95, 102, 105, 114, 115, 116] with
+  | panic p => simp [hd] at h
+  | err k => simp [hd, EM.fail_apply] at h
+  | ok st' =>
+    simp only [hd] at h
+    obtain ⟨_, e2, _, h⟩ := bind_ok_inv _ _ _ _ _ h
+    obtain ⟨e3, e4, h3, h⟩ := bind_ok_inv _ _ _ _ _ h
+    generalize hrl : runLoop _ _ _ _ _ = rl at h
+    obtain ⟨r, pvm'⟩ := rl
+    simp only at h
+    obtain ⟨_, e5, _, h⟩ := bind_ok_inv _ _ _ _ _ h
+    cases r with
+    | panic p => simp at h
+    | err k m =>
+      simp only at h
+      obtain ⟨_, e6, _, h⟩ := bind_ok_inv _ _ _ _ _ h
+      simp [EM.fail_apply] at h
+    | ok code =>
+      simp only at h
+      by_cases hl : code.length > 0
+      · simp only [hl, if_true] at h
+        obtain ⟨_, e6, _, h⟩ := bind_ok_inv _ _ _ _ _ h
+        obtain ⟨_, e7, _, h⟩ := bind_ok_inv _ _ _ _ _ h
+        simp [EM.fail_apply] at h
+      · simp only [hl, if_false] at h
+        obtain ⟨t, e6, _, h⟩ := bind_ok_inv _ _ _ _ _ h
+        by_cases ht : t = true
+        · simp only [ht, if_true] at h
+          obtain ⟨_, e7, _, h⟩ := bind_ok_inv _ _ _ _ _ h
+          obtain ⟨u, e8, hf, h⟩ := bind_ok_inv _ _ _ _ _ h
+          simp only [EM.pure_apply, Prod.mk.injEq] at h
+          rw [← h.2]
+          cases u
+          exact firstFinish_idx _ _ _ hf
+        · simp only [ht, if_false] at h
+          obtain ⟨u, e8, hf, h⟩ := bind_ok_inv _ _ _ _ _ h
+          simp only [EM.pure_apply, Prod.mk.injEq] at h
+          rw [← h.2]
+          cases u
+          exact firstFinish_idx _ _ _ hf
+
 end Vise.C04
